@@ -671,16 +671,40 @@ pub fn mutate(rng: &mut Rng, s: &str) -> String {
             out.truncate(rng.below(n as u64 + 1) as usize);
         }
         4 if n > 0 => {
-            // a long digit run / huge number
-            let p = rng.below(n as u64) as usize;
-            let run: Vec<char> = match rng.below(4) {
-                0 => "99999999999999999999".chars().collect(),
-                1 => "2147483648".chars().collect(),
-                2 => "1e999".chars().collect(),
+            // a long digit run / huge number, in place of one of the digit runs of the string (or inserted)
+            let len = *rng.pick(&[9usize, 10, 11, 19, 20, 39]);
+            let run: Vec<char> = match rng.below(8) {
+                0 => "9".repeat(len).chars().collect(),
+                1 => "0".repeat(len).chars().collect(),
+                2 => format!("{}5", "0".repeat(len - 1)).chars().collect(),
+                3 => format!("1{}", "0".repeat(len - 1)).chars().collect(),
+                4 => "2147483648".chars().collect(),
+                5 => "1e999".chars().collect(),
+                6 => "2147483647".chars().collect(),
                 _ => "4294967296".chars().collect(),
             };
-            for (i, c) in run.iter().enumerate() {
-                out.insert(p + i, *c);
+            // the digit runs of the string: (start, end)
+            let mut runs: Vec<(usize, usize)> = Vec::new();
+            let mut i = 0;
+            while i < n {
+                if chars[i].is_ascii_digit() {
+                    let st = i;
+                    while i < n && chars[i].is_ascii_digit() {
+                        i += 1;
+                    }
+                    runs.push((st, i));
+                } else {
+                    i += 1;
+                }
+            }
+            if !runs.is_empty() && rng.chance(3, 4) {
+                let (st, en) = *rng.pick(&runs);
+                out.splice(st..en, run.into_iter());
+            } else {
+                let p = rng.below(n as u64) as usize;
+                for (i, c) in run.iter().enumerate() {
+                    out.insert(p + i, *c);
+                }
             }
         }
         _ if n > 1 => {
@@ -704,6 +728,8 @@ pub fn c13(rec: &mut Rec, lm: &Landmarks, rng: &mut Rng, thorough: bool) {
         "Tue, 29 Feb 2000 14:57:29", "Tuesday, 29 February 2000 14:57:29", "2000-060", "2023-117T12:55:26", "UTC", "QZSST", "Monday", "sun", "February", "dec",
         "", " ", "2020", "0000-00-00T00:00:00", "9999-12-31T23:59:59.999999999 QZSST", "2020-02-30T00:00:00", "2020-13-01T00:00:00", "2020-01-01T25:00:00",
         "2020-01-01T00:60:00", "JD NaN TAI", "SEC inf TAI", "MJD -inf UTC", "SEC 1e400 TT", "JD 123 €a", "éééé", "-€", "SEC 12.5 GPST", "2020-01-01T00:00:00.1234567891 UTC",
+        "2020-01-01T00:00:00.0000000005 UTC", "2020-01-01T00:00:00.0000000000 UTC", "2020-01-01T00:00:00.00000000000000000001", "2020-01-01T00:00:00.000000000",
+        "2020-01-01T00:00:00.9999999999Z", "2020-01-01T00:00:00.0000000001+01:00",
         "%Y%Y%Y%Y%Y%Y%Y%Y%Y%Y%Y%Y%Y%Y%Y%Y", "%Y%Y%Y%Y%Y%Y%Y%Y%Y%Y%Y%Y%Y%Y%Y%Y%Y", "03 2020", "2147483647-01-01", "99999999999-01-01T00:00:00",
         // well-formed, out of range: every field at its first invalid value
         "2017-01-14T00:31:55+01:60", "2017-01-14T00:31:55-24:00", "2017-01-14T00:31:55+23:59", "2017-01-14T24:31:55", "2017-01-14T00:31:55.5+00:60 TAI",
